@@ -11,7 +11,7 @@ import json, os, re, subprocess, sys
 
 SRC = sys.argv[1]
 IDS = sys.argv[2:]
-WT = "/tmp/wt_confirm"
+WT = os.environ.get("KV_CONFIRM_WT", "/tmp/wt_confirm")
 ENV = dict(os.environ, RUSTUP_TOOLCHAIN="1.96.0", CARGO_NET_OFFLINE="true")
 
 CRATES = [
